@@ -85,6 +85,7 @@ Forms ==
                F(St16[i][1], "ext", St16[i][2] + 48)} : i \in 1..2}
   \cup {F("JMP", "idx", 110), F("JMP", "exto", 126), F("JSR", "idx", 173), F("JSR", "exto", 189)}
 
+After(cpu, prev, form, units) == units
 Skipped(cpu, form, ops) == FALSE
 Unjudged(cpu, form, ops) == FALSE
 DefinedCount(cpu) == 197
